@@ -13,7 +13,7 @@
 From Coq Require Import ZArith NArith List Reals.
 From Flocq Require Import Core IEEE754.BinarySingleNaN.
 From Common Require Import Bytes Outcome.
-From C25 Require Import Model Proofs Bits.
+From C25 Require Import Model Proofs Bits ProofsAcc ProofsExact.
 
 (* For every ratio c1/c2 whose float value is <= 1 (in particular whenever c1 <= c2, see
    C25_ratio_order) and every n >= 1: CalculateThreshold succeeds and returns
@@ -75,13 +75,10 @@ Proof.
 Qed.
 Print Assumptions C25_ratio_order.
 
-(* Distance to the real-number formula (partial, see below): if math.Pow's result for the
-   float arguments pp = RN(1 - c), theta = RN(1/RN n) is within eps of a real number Y -- the
-   intended instance is Y = Rpower (R64 pp) (R64 theta), the exact power -- then
-   threshold / 2^128 is within eps + 2^-53 + 2^-128 of 1 - Y.
-   PARTIAL with respect to DESIGN.md's C25_error_bound: the perturbation of the exact power
-   caused by rounding the ARGUMENTS (1 - c and 1/n) is not analysed in Coq; the harness measures
-   the end-to-end distance to 1 - (1-c)^(1/n) with 512-bit arithmetic on every case (bound 2^-50). *)
+(* Distance to the real-number formula, first half: if math.Pow's result for the float arguments
+   pp = RN(1 - c), theta = RN(1/RN n) is within eps of ANY real number Y, then
+   threshold / 2^128 is within eps + 2^-53 + 2^-128 of 1 - Y.  (C25_error_bound below
+   instantiates Y with the exact power and adds the analysis of the rounded arguments.) *)
 Theorem C25_error_bound_partial : forall pow64 c1 c2 n Y eps,
   pow_range pow64 -> (1 <= c1 < 2 ^ 64)%Z -> (1 <= c2 < 2 ^ 64)%Z -> (1 <= n < 2 ^ 63)%Z ->
   (R64 (ratio_of c1 c2) <= 1)%R ->
@@ -90,6 +87,78 @@ Theorem C25_error_bound_partial : forall pow64 c1 c2 n Y eps,
     (Rabs (IZR (Z.of_N t) / IZR two128 - (1 - Y)) <= eps + bpow radix2 (-53) + / IZR two128)%R.
 Proof. exact error_bound_partial. Qed.
 Print Assumptions C25_error_bound_partial.
+
+(* Distance to the real-number formula, in full (DESIGN.md's C25_error_bound): let C be the
+   float ratio RN(RN c1 / RN c2) -- the number Substrate itself takes for c -- and
+   real_root x n = x^(1/n) (Rpower, continued by 0 at x = 0).  If math.Pow is within eps of the
+   exact power x^y on (0,1] x (0,1] (hypothesis pow_acc; 1 ulp <= 2^-53 for a faithful pow), then
+   for every authority count below 2^53 the threshold exists and
+       | threshold / 2^128 - (1 - (1 - C)^(1/n)) |  <=  eps + 2^-51 + 2^-128 .
+   The 2^-51 = 4 * 2^-53 covers the rounding of 1 - C and of 1/n (3 * 2^-53: relative
+   perturbations of at most 2^-53 in the base and in the exponent move x^y by at most
+   2^-53 * (1/2 + 2 + small), using y |ln y| <= 1/e) and the final subtraction (2^-53); with
+   eps = 2^-53 the total is below 2^-50, the bound the harness tests on every case.
+   Note that the distance is to the formula at the FLOAT ratio C: at the rational c1/c2 no uniform
+   bound exists (c1/c2 = 1 - 2^-60 has C = 1 and saturates, while the formula at the rational with
+   n = 60 is 1/2); Substrate computes c the same way. *)
+Theorem C25_error_bound : forall pow64 c1 c2 n eps,
+  pow_range pow64 -> pow_zero pow64 -> pow_acc pow64 eps ->
+  (1 <= c1 < 2 ^ 64)%Z -> (1 <= c2 < 2 ^ 64)%Z -> (1 <= n < 2 ^ 53)%Z ->
+  (R64 (ratio_of c1 c2) <= 1)%R ->
+  exists t, calculate_threshold pow64 c1 c2 n = Ok t /\
+    (Rabs (IZR (Z.of_N t) / IZR two128 - (1 - real_root (1 - R64 (ratio_of c1 c2)) n))
+       <= eps + bpow radix2 (-51) + / IZR two128)%R.
+Proof. exact error_bound. Qed.
+Print Assumptions C25_error_bound.
+
+(* The floor of the statement never discards anything: P = RN(1 - pow64 ...) is a multiple of
+   2^-53 (a binary64 number in [1/2,1] is one, and below 1/2 the subtraction is exact), hence
+   2^128 * P is an integer and the threshold is exactly 2^128 * P, or 2^128 - 1 when P = 1.
+   (This is why replacing the Euclidean big.Int.Div by a rounding division cannot be observed for
+   n >= 1.) *)
+Theorem C25_floor_exact : forall pow64 c1 c2 n,
+  pow_range pow64 -> (1 <= c1 < 2 ^ 64)%Z -> (1 <= c2 < 2 ^ 64)%Z -> (1 <= n < 2 ^ 63)%Z ->
+  (R64 (ratio_of c1 c2) <= 1)%R ->
+  let P := RN (1 - R64 (pow64 (f64_sub f64_one (ratio_of c1 c2)) (theta_of n))) in
+  exists t, calculate_threshold pow64 c1 c2 n = Ok t /\
+    ((P < 1)%R -> IZR (Z.of_N t) = (IZR two128 * P)%R) /\
+    (P = 1%R -> t = max128).
+Proof. exact floor_exact. Qed.
+Print Assumptions C25_floor_exact.
+
+(* saturation at every pair whose FLOAT ratio is 1 -- c1 = c2 (C25_saturates) and also pairs
+   c1 <> c2 above 2^53 that round to the same binary64 number, as in Substrate *)
+Theorem C25_saturates_ratio_one : forall pow64 c1 c2 n,
+  pow_range pow64 -> pow_zero pow64 -> (1 <= c1 < 2 ^ 64)%Z -> (1 <= c2 < 2 ^ 64)%Z -> (1 <= n < 2 ^ 63)%Z ->
+  R64 (ratio_of c1 c2) = 1%R -> calculate_threshold pow64 c1 c2 n = Ok max128.
+Proof. exact saturates_ratio_one. Qed.
+Print Assumptions C25_saturates_ratio_one.
+
+(* the float ratio is the correctly rounded rational, and ordered like the rationals, whenever
+   the four operands are exactly representable in binary64 (generalises the third part of
+   C25_ratio_order from operands < 2^53 to e.g. all multiples of 2^11) ... *)
+Theorem C25_ratio_order_representable : forall c1 c2 c1' c2',
+  (1 <= c1 < 2 ^ 64)%Z -> (1 <= c2 < 2 ^ 64)%Z -> (1 <= c1' < 2 ^ 64)%Z -> (1 <= c2' < 2 ^ 64)%Z ->
+  RN (IZR c1) = IZR c1 -> RN (IZR c2) = IZR c2 -> RN (IZR c1') = IZR c1' -> RN (IZR c2') = IZR c2' ->
+  (c1 * c2' <= c1' * c2)%Z ->
+  R64 (ratio_of c1 c2) = RN (IZR c1 / IZR c2) /\
+  (R64 (ratio_of c1 c2) <= R64 (ratio_of c1' c2'))%R.
+Proof. exact ratio_mono_fmt. Qed.
+Print Assumptions C25_ratio_order_representable.
+
+(* ... and NOT in general: for operands that binary64 cannot represent, "monotone in c" read
+   over the rationals c1/c2 fails -- for Substrate's `c.0 as f64 / c.1 as f64` just as for
+   CalculateThreshold, which reproduces it.  (2^53+1)/(2^53+2) > 2^53/(2^53+1), yet the first
+   threshold (n = 1) is strictly smaller than the second (which saturates).  Monotonicity in the
+   float ratio (C25_monotone) is what holds for all inputs. *)
+Theorem C25_rational_order_large_operands_refuted :
+  let a1 := (2 ^ 53 + 1)%Z in let a2 := (2 ^ 53 + 2)%Z in
+  let b1 := (2 ^ 53)%Z in let b2 := (2 ^ 53 + 1)%Z in
+  (b1 * a2 < a1 * b2)%Z /\
+  exists ta tb, calculate_threshold (fun x _ => x) a1 a2 1 = Ok ta /\
+                calculate_threshold (fun x _ => x) b1 b2 1 = Ok tb /\ (ta < tb)%N.
+Proof. exact rational_order_large_refuted. Qed.
+Print Assumptions C25_rational_order_large_operands_refuted.
 
 (* the inputs CalculateThreshold rejects *)
 Theorem C25_errors : forall pow64 c1 c2 n,
@@ -133,6 +202,16 @@ Proof.
   - intros x th _ Hx _ _. exact Hx.
   - intros x y th _ _ _ _ _ H _. exact H.
 Qed.
+
+(* the accuracy hypothesis of C25_error_bound is satisfiable together with the other three *)
+Example C25_pow_acc_satisfiable : pow_acc (fun x _ => x) 1.
+Proof. exact pow_acc_satisfiable. Qed.
+
+(* c1 <> c2 with float ratio 1 (2^53 / (2^53+1)): saturates, as C25_saturates_ratio_one says *)
+Example C25_nonvacuous_ratio_one :
+  calculate_threshold (fun x _ => x) (2 ^ 53) (2 ^ 53 + 1) 7 = Ok max128 /\
+  f64_bits (ratio_of (2 ^ 53) (2 ^ 53 + 1)) = f64_bits f64_one.
+Proof. vm_compute. split; reflexivity. Qed.
 
 (* c = 1/4, n = 1: threshold = 2^126; c = 1: the maximum *)
 Example C25_nonvacuous_quarter :
